@@ -638,7 +638,9 @@ class type_base(object):
                 curr = (curr & ~msk) | ((val << rng.stop) & msk)
             else:
                 curr = (curr & ~(1 << rng)) | ((val & 1) << rng)
-            self.get_model().set_val(curr)
+            # Store through set_val so the result is re-read in the field's type
+            # (setting the top bit of a signed field makes the value negative)
+            self.set_val(curr)
         else:
             raise Exception("Cannot assign to a part-select within a constraint")
         
